@@ -97,7 +97,7 @@ func toInt(v any) int {
 
 func init() {
 	register("C17", func(c *engine.Ctx) {
-		c.Rule = "random programs generated with --extra-imports (tree fragment plus scalar defaults; no date/time formats and no mixed enums: known finding K9); documents: a fully populated valid document, schema-directed valid documents, and single-fault documents (one required key removed, one bound exceeded by 1, one length off by 1, one pattern mismatch, one non-member of a string enum); each decoded through the real UnmarshalJSON and the real UnmarshalYAML: same verdict and same re-marshalled value. Distinct = distinct (fault kind, verdict pair, document shape)."
+		c.Rule = "random programs generated with --extra-imports (tree fragment plus scalar defaults; no date/time formats and no mixed enums: known finding K9); documents: a fully populated valid document, schema-directed valid documents, and single-fault documents (one required key removed, one bound exceeded by 1, one length off by 1, one pattern mismatch, one non-member of a string enum); plus required integer keys named with every punctuation character a tag may contain and with verb-like names (cpu%, %s, 100%, {{.}}): valid, each key missing, each bound exceeded; each decoded through the real UnmarshalJSON and the real UnmarshalYAML: same verdict and same re-marshalled value. Distinct = distinct (fault kind, verdict pair, document shape)."
 		c.Proofs([]string{"GJS.Props.C17"}, []string{
 			"GJS.Props.C17.runAfter_wire_independent", "GJS.Props.C17.runBefore_wire_independent", "GJS.Props.C17.prim_decode_agree",
 			"GJS.Props.C17.method_same_statements", "GJS.Props.C17.KF_yaml_int_in_mixed_enum", "GJS.Props.C17.KF_yaml_truncates_fraction",
@@ -125,6 +125,38 @@ func init() {
 			docs = append(docs, fd...)
 			kinds = append(kinds, fk...)
 			pc := baseCase("c17-yaml-json", root, docs)
+			pc.Cfg.ExtraImports = true
+			pcs = append(pcs, pc)
+			metas = append(metas, meta{kinds})
+		}
+		// property names with every punctuation character a tag name may contain, and names that look like format
+		// verbs / escapes, as REQUIRED and as optional keys: both decoders must look the key up under its exact name
+		const tagPunct17 = "!#$%&()*+-./:;<=>?@[]^_{|}~ "
+		var nameSets [][]string
+		for _, ch := range tagPunct17 {
+			nameSets = append(nameSets, []string{"a" + string(ch) + "b", "y" + string(ch)})
+		}
+		nameSets = append(nameSets, []string{"cpu%", "host"}, []string{"%s", "100%", "a%%b"}, []string{"%d%v", "x"}, []string{"{{.}}", "$1"})
+		for _, set := range nameSets {
+			props := M{}
+			full := M{}
+			for i, nm := range set {
+				props[nm] = M{"type": "integer", "minimum": 1}
+				full[nm] = 5 + i
+			}
+			docs := []any{full}
+			kinds := []string{"valid"}
+			for _, nm := range set {
+				d := sgen.DeepCopy(full).(M)
+				delete(d, nm)
+				docs = append(docs, d)
+				kinds = append(kinds, "required")
+				b := sgen.DeepCopy(full).(M)
+				b[nm] = 0
+				docs = append(docs, b)
+				kinds = append(kinds, "bound")
+			}
+			pc := baseCase("c17-key-names", M{"type": "object", "properties": props, "required": toAnyS(set)}, docs, strings.Join(set, " "))
 			pc.Cfg.ExtraImports = true
 			pcs = append(pcs, pc)
 			metas = append(metas, meta{kinds})
